@@ -81,6 +81,9 @@ def probes():
     for tok, _ in precedence.FUNCTIONS:
         atoms.append([tok, "LPAREN", "IDENT", "RPAREN"])
         atoms.append([tok, "LPAREN", "IDENT", "COMMA", "IDENT", "RPAREN"])
+    for tok, _ in precedence.FUNCTIONS:
+        atoms.append([tok])                       # a bare function keyword is not an expression (except `none`)
+        atoms.append([tok, "LPAREN", tok, "RPAREN"])
     atoms.append(["KWD_INT", "IDENT"])
     atoms.append(["KWD_INT", "LPAREN", "RPAREN"])
     binops = [t for _, ops in precedence.BINARY_LEVELS for t, _ in ops] + ["KWD_CONTAINS", "KWD_IN"]
@@ -140,8 +143,8 @@ def probes():
 def run(res, f, tier):
     g, Pg = extracted_grammar(f)
     Ps = precedence.productions()
-    res.floor("productions in the generated parser", len(g["productions"]), 121)
-    res.floor("terminals", len(g["terminals"]), 70)
+    res.floor("productions in the generated parser", len(g["productions"]), 90)
+    res.floor("terminals", len(g["terminals"]), 50)
     Pg = reachable(Pg, ["Expr", "Rule"])
     Ps = reachable(Ps, ["Expr", "Rule"])
     tg = set(s for _, r, _ in Pg for s in r) - cfg.nonterminals(Pg)
@@ -171,11 +174,26 @@ def run(res, f, tier):
         todo = P
     else:
         todo = P[::3]   # quick tier cross-checks a third of the suite when the structural proof succeeded
+    import lexre
+    lx = lexre.Lexer(g["table"])
+    names = {i: n for n, i in g["terminal_token"].items()}
+    import re as _re
+
+    def strip_names(trees):
+        # leaves are TOKEN@position: the comparison is on structure and positions, not on the terminal's name
+        return sorted(_re.sub(r"[A-Z_0-9]+@", "@", t) for t in trees)
     for start, sent in todo:
         nprobe += 1
         ra = cfg.earley_parse(Ps, start, sent)
-        rb = cfg.earley_parse(Pg, start, sent)
-        if sorted(ra) != sorted(rb):
+        # the parser side is probed at TEXT level: spell the sentence, lex it with the generated table, parse the
+        # terminals the lexer actually produces (robust to renamed / merged keyword tokens)
+        try:
+            text = " ".join(precedence.TEXT[t] for t in sent)
+            actual = [names[i] for i, _ in lx.tokenize(text)]
+            rb = cfg.earley_parse(Pg, start, actual) if len(actual) == len(sent) else ["<retokenised: %s>" % " ".join(actual)]
+        except (ValueError, KeyError):
+            rb = []
+        if strip_names(ra) != strip_names(rb):
             witnesses.append({"start": start, "tokens": " ".join(sent), "table_says": ra or "reject", "parser_does": rb or "reject"})
             if len(witnesses) >= 8:
                 break
@@ -184,8 +202,7 @@ def run(res, f, tier):
         res.violation("C07|grammar|%s" % w["tokens"],
                       "the parser's grammar differs from the precedence table: `%s` -> table: %s, parser: %s" % (w["tokens"], w["table_says"], w["parser_does"]),
                       {"witnesses": witnesses, "production_diff": diff})
-    elif not same and (set(ts) != set(tg)):
-        res.violation("C07|terminals", "the parser's token alphabet differs from the table's: %s" % diff, diff)
+    # a differing terminal alphabet alone is not a violation (tokens may be renamed / merged); the text-level probes decide
     res.coverage = {
         "obligations": obligations,
         "discharged": obligations if same else 0,
